@@ -96,7 +96,9 @@ fn start_watchdog(hang_file: Option<PathBuf>) {
                         if busy && t0.elapsed() < limit * 6 {
                             continue;
                         }
-                        let rec = json!({"desc": desc, "busy": busy, "elapsed_s": t0.elapsed().as_secs_f64()});
+                        // the case that is running (persisted before it started), so that the supervisor can write a replay
+                        let cur: Option<Value> = std::fs::read_to_string(scratch::base_for(std::process::id()).join("cur.json")).ok().and_then(|s| serde_json::from_str(&s).ok());
+                        let rec = json!({"desc": desc, "busy": busy, "elapsed_s": t0.elapsed().as_secs_f64(), "cur": cur});
                         if let Some(p) = &hang_file {
                             let _ = std::fs::write(p, rec.to_string());
                         }
@@ -489,7 +491,7 @@ fn supervisor(a: &[String]) -> i32 {
     let mut running: Vec<Child> = vec![];
     let mut merged = ShardResult::default();
     let mut infra: Vec<String> = vec![];
-    let mut hangs: Vec<(u32, Value)> = vec![];
+    let mut hangs: Vec<(u32, Value, Option<Value>)> = vec![];
     let mut deaths: Vec<(u32, String, Option<Value>)> = vec![];
 
     loop {
@@ -544,7 +546,8 @@ fn supervisor(a: &[String]) -> i32 {
                     },
                     Some(HANG_EXIT) => {
                         let v = std::fs::read_to_string(c.out.with_extension("hang")).ok().and_then(|s| serde_json::from_str(&s).ok()).unwrap_or(json!({}));
-                        hangs.push((c.shard, v));
+                        let cur = cur.or_else(|| v.get("cur").filter(|c| !c.is_null()).cloned());
+                        hangs.push((c.shard, v, cur));
                     }
                     other => {
                         let tail = std::fs::read_to_string(outdir.join(format!("shard{}.log", c.shard))).unwrap_or_default();
@@ -609,14 +612,16 @@ fn supervisor(a: &[String]) -> i32 {
         }
         exit = 1;
     }
-    for (shard, v) in &hangs {
+    for (shard, v, cur) in &hangs {
         let desc = v.get("desc").and_then(|d| d.as_str()).unwrap_or("?").to_string();
         if p.hang_is_violation {
             // the description carries the case; persist it as a note-only replay
+            // the case that was running (persisted by the worker before it started) makes the replay executable;
+            // without it the description is kept as a note-only replay
             let r = Replay {
                 property: p.id.into(),
-                kind: "hang".into(),
-                case: json!({"desc": desc}),
+                kind: cur.as_ref().and_then(|c| c.get("kind")).and_then(|k| k.as_str()).unwrap_or("hang").to_string(),
+                case: cur.as_ref().and_then(|c| c.get("case")).cloned().unwrap_or(json!({"desc": desc})),
                 failure: Some(Failure::new("hang", format!("call did not return within {:?}: {}", hang_limit(), truncate(&desc, 800)))),
                 tier: Some(tier.name().into()),
                 seed: Some(seed),
